@@ -9,13 +9,18 @@
    From (a)-(c): two candidates that both collected quorumSize distinct Granted=true responses in
    the same term from voters of one configuration (or of two successive ones) are the same
    candidate - C01_two_quorums_one_candidate below, stated over abstract per-voter grant tables that
-   (a) shows every real voter satisfies.  The composition of the node model into a cluster-level
-   step relation (so that "leader" is a reachable-state predicate) is not part of this round: see
-   DESIGN.md; the cluster monitors check the full statement on real histories. *)
+   (a) shows every real voter satisfies.
+   (d) THE COMPOSED STATEMENT: over the cluster transition system of Model/Cluster.v (candidate
+       loops + handlers + a network that delays, reorders, duplicates and loses, with store
+       failures, crash cuts and restarts at every server), for elections held under one
+       configuration, no run has two servers become leader in the same term
+       (C01_election_safety).  Not covered by (d): elections that straddle a membership change
+       (the ingredient, intersection of adjacent majorities, is (b)), and pre-vote rounds (they
+       only gate whether electSelf runs; C14). *)
 From Coq Require Import List NArith Lia.
 From stdpp Require Import gmap.
-From RaftModel Require Import Base Config Node NodeCodec.
-From RaftProofs Require Import ConfigProofs VoteProofs.
+From RaftModel Require Import Base Config Node NodeCodec Candidate Cluster.
+From RaftProofs Require Import ConfigProofs VoteProofs ClusterProofs.
 Open Scope N_scope.
 
 Theorem C01_one_vote_per_term_per_server : forall P r ins,
@@ -64,6 +69,28 @@ Theorem C01_quorum_size_is_majority : forall c,
   let n := N.of_nat (length (voters c)) in 2 * quorum_size c > n.
 Proof. intros c. apply quorum_size_majority. Qed.
 Print Assumptions C01_quorum_size_is_majority.
+
+(* ELECTION SAFETY over the composed cluster: any number of servers in any well-formed start state,
+   any interleaving of timers (GTimeout), vote requests executed by their target late, repeatedly
+   or never, with any store-failure pattern and crash cut (GVoteReq), responses consumed at most
+   once per invocation and peer or lost (GVoteResp), and any other RPC, stray vote request,
+   TimeoutNow or restart at any server (GInput): two servers never become leader of one term. *)
+Theorem C01_election_safety : forall cfg g0 ls g T i i',
+  NoDup (voters cfg) -> ginit_ok g0 -> grun cfg g0 ls = Some g ->
+  In (T, i) (g_leaders g) -> In (T, i') (g_leaders g) -> i = i'.
+Proof. exact election_safety. Qed.
+Print Assumptions C01_election_safety.
+
+(* non-vacuity: three servers; 1 times out, 2 and 3 execute its request, one response makes it
+   leader of term 2; 3 then times out, 2 grants it term 3: two leaders, of different terms *)
+Example C01_cluster_run :
+  let cfg := mk_cfg 3 in
+  let g0 := mkG (map (fun i => mk_node cfg i 0) [1; 2; 3]) [] [] [] in
+  match grun cfg g0 [GTimeout 1; GVoteReq 1 2 0 []; GVoteReq 1 3 0 []; GVoteResp 1 2; GTimeout 3; GVoteReq 3 2 0 []; GVoteResp 3 2] with
+  | Some g => g_leaders g = [(3, 3); (2, 1)]
+  | None => False
+  end.
+Proof. vm_compute. reflexivity. Qed.
 
 Example C01_nontrivial :
   let V := [1; 2; 3; 4; 5] in
